@@ -368,6 +368,61 @@ pub fn run(ctx: &Ctx) -> Report {
             }
         }));
     }
+    // (f) dotted names in the fields of a bank definition: if the assembler accepts such a field at all, the name is the
+    //     child its dots say (never the global of the same last name); a reference that skips a level is an error
+    {
+        // (field text, Some(address) = the only address a success may give / None = must be rejected, success required)
+        let cases: Vec<(&str, Option<u8>, bool)> = vec![
+            ("base", Some(0x40), true),
+            (".base", Some(0x80), false),
+            ("cfg.base", Some(0x80), true),
+            ("..cfg.base", None, false),
+            ("..base", None, false),
+            (".base + 1", Some(0x81), false),
+        ];
+        let mut loc = Local::new();
+        for (field, want, required) in &cases {
+            for decl_after in [false, true] {
+                let consts = "base = 0x40\ncfg = 0\n.base = 0x80\n";
+                let bank = format!("#bankdef b\n{{\n    #addr {}\n    #outp 0\n}}\nhere:\n#d8 here\n", field);
+                // the constants before the definition, with `cfg` as the scope at that point (the order matters for
+                // the dotted forms only in this direction)
+                if decl_after {
+                    continue;
+                }
+                let src = format!("{}{}", consts, bank);
+                loc.eval();
+                loc.nontrivial(&src);
+                loc.class("dotted-name-in-a-bank-field");
+                let obs = run::assemble_str(&src, &opts);
+                let bad = if obs.panicked.is_some() {
+                    Some("panic")
+                } else if obs.success() {
+                    match want {
+                        Some(a) if obs.bits == format!("{:08b}", a) => None,
+                        Some(_) => Some("a name resolves to something else than the declaration its dot-level and path determine"),
+                        None => Some("a reference that skips a nesting level is accepted"),
+                    }
+                } else if *required {
+                    Some("valid program rejected")
+                } else if !obs.failure() {
+                    Some("neither clean success nor clean failure")
+                } else {
+                    None
+                };
+                loc.traces_validated += 1;
+                if let Some(b) = bad {
+                    loc.violation(Violation {
+                        property: ID,
+                        key: format!("bank-field-names:{}", b),
+                        what: format!("{}: {}", b, src.replace('\n', " / ")),
+                        case: json!({"family": "special-names", "program": src, "opts": opts.to_json(), "expected": match want { Some(a) => json!({"ok": true, "hex": format!("{:02x}", a), "bits_len": 8, "or": if *required { "nothing else" } else { "an error" }}), None => json!({"error": "reference skips a nesting level"}) }, "observed": obs.summary()}),
+                    });
+                }
+            }
+        }
+        rep.absorb(loc);
+    }
     rep.assumptions = vec!["a level-0 constant opens a new scope for following locals in this assembler; positions where that matters are Unspecified for the moved-constant family".into()];
     for c in ["ref-success", "ref-error:undefined symbol", "ref-error:duplicate symbol", "ref-error:declaration skips a nesting level", "ref-error:cyclic constant definition", "moved-constant"] {
         rep.require_class(c);
